@@ -74,6 +74,12 @@ type OtherRule struct {
 	Expr   string `json:"expr"`
 }
 
+type SeriesSpec struct {
+	Labels  map[string]string `json:"labels"` // including __name__
+	Pattern string            `json:"pattern"`
+	Value   float64           `json:"value"`
+}
+
 type Case struct {
 	Kind          string            `json:"kind"` // "alert" | "record"
 	Expr          string            `json:"expr"`
@@ -84,8 +90,14 @@ type Case struct {
 	LookbackStep  string            `json:"lookback_step"`
 	IgnoreMetrics []string          `json:"ignore_metrics,omitempty"`
 	Tags          []string          `json:"tags,omitempty"`
-	DB            promsrv.RelDB     `json:"db"`
-	Patterns      map[string]string `json:"patterns,omitempty"` // metric -> presence pattern (classification only)
+	// Series: the database, as presence patterns relative to now and to the lookback window (see spansFor);
+	// materialised when the case runs, so a stored case replays at any later time.
+	Series []SeriesSpec `json:"series"`
+	Uptime string       `json:"uptime"` // pattern of the `up` metric: "full" | "gap" | "none"
+	// Align (hand-made replays only): lengthen the lookback by up to 2h so that the window starts 110 minutes
+	// after a 2h boundary of the wall clock - pint aligns its range-query slices to such boundaries, and how far
+	// before the window it looks depends on the time of day the case runs.
+	Align bool `json:"align,omitempty"`
 	Class         string            `json:"class,omitempty"`
 }
 
@@ -101,9 +113,51 @@ func (c Case) lookback() time.Duration {
 	return d
 }
 
+// aligned returns the case with the lookback adjusted for Align (see Case.Align).
+func (c Case) aligned(now time.Time) Case {
+	if !c.Align {
+		return c
+	}
+	lbMin := int64(c.lookback() / time.Minute)
+	nowMin := now.Unix() / 60
+	// want (nowMin - L) mod 120 == 110
+	delta := ((nowMin-lbMin-110)%120 + 120) % 120
+	c.LookbackRange = fmt.Sprintf("%dm", lbMin+delta)
+	return c
+}
+
+func (c Case) patterns() map[string]string {
+	m := map[string]string{}
+	for _, name := range metrics {
+		m[name] = "never"
+	}
+	for _, s := range c.Series {
+		m[s.Labels["__name__"]] = s.Pattern
+	}
+	m["up"] = c.Uptime
+	return m
+}
+
+// relDB materialises the database for the (aligned) lookback.
+func (c Case) relDB() promsrv.RelDB {
+	lbSec := int64(c.lookback().Seconds())
+	db := promsrv.RelDB{StepSec: 60}
+	for _, s := range c.Series {
+		db.Series = append(db.Series, promsrv.RelSeries{Labels: s.Labels, Spans: spansFor(s.Pattern, lbSec), Value: s.Value})
+	}
+	up := map[string]string{"__name__": "up", "job": "j"}
+	switch c.Uptime {
+	case "full":
+		db.Series = append(db.Series, promsrv.RelSeries{Labels: up, Spans: []promsrv.RelSpan{{FromSec: -(lbSec + 5*hour), ToSec: hour}}, Value: 1})
+	case "gap":
+		db.Series = append(db.Series, promsrv.RelSeries{Labels: up, Spans: []promsrv.RelSpan{{FromSec: -(lbSec + 5*hour), ToSec: -(2*hour + 20*60)}, {FromSec: -(hour + 20*60), ToSec: hour}}, Value: 1})
+	}
+	return db
+}
+
 func (c Case) config() string {
 	var b strings.Builder
-	fmt.Fprintf(&b, "prometheus \"prom\" {\n  uri = %q\n  timeout = \"60s\"\n  rateLimit = 10000\n  concurrency = 8\n  uptime = \"up\"\n", urlMark)
+	fmt.Fprintf(&b, "prometheus \"prom\" {\n  uri = %q\n  timeout = \"60s\"\n  rateLimit = 10000\n  concurrency = 4\n  uptime = \"up\"\n", urlMark)
 	if len(c.Tags) > 0 {
 		fmt.Fprintf(&b, "  tags = [%s]\n", quoteList(c.Tags))
 	}
@@ -179,6 +233,35 @@ type selector struct {
 	Metric string // "" when the name is not fixed by an equality matcher
 	Ranges [][2]int
 	Match  []*labels.Matcher // including __name__
+	// JoinDepth: how many times the path from the root enters the "other" side of a vector-to-vector binary
+	// operation (the right-hand side; the left-hand side for group_right). Minimum over occurrences.
+	JoinDepth int
+}
+
+// joinDepths maps every vector selector node to its join depth.
+func joinDepths(node parser.Node, depth int, out map[*parser.VectorSelector]int) {
+	switch n := node.(type) {
+	case *parser.VectorSelector:
+		out[n] = depth
+	case *parser.BinaryExpr:
+		lt, rt := n.LHS.Type(), n.RHS.Type()
+		if lt == parser.ValueTypeVector && rt == parser.ValueTypeVector {
+			if n.VectorMatching != nil && n.VectorMatching.Card == parser.CardOneToMany {
+				joinDepths(n.LHS, depth+1, out)
+				joinDepths(n.RHS, depth, out)
+			} else {
+				joinDepths(n.LHS, depth, out)
+				joinDepths(n.RHS, depth+1, out)
+			}
+			return
+		}
+		joinDepths(n.LHS, depth, out)
+		joinDepths(n.RHS, depth, out)
+	default:
+		for _, ch := range parser.Children(node) {
+			joinDepths(ch, depth, out)
+		}
+	}
 }
 
 func selectorsOf(expr string) ([]selector, error) {
@@ -187,6 +270,8 @@ func selectorsOf(expr string) ([]selector, error) {
 		return nil, err
 	}
 	var out []selector
+	depths := map[*parser.VectorSelector]int{}
+	joinDepths(node, 0, depths)
 	parser.Inspect(node, func(n parser.Node, _ []parser.Node) error {
 		vs, ok := n.(*parser.VectorSelector)
 		if !ok {
@@ -207,10 +292,11 @@ func selectorsOf(expr string) ([]selector, error) {
 		for i := range out {
 			if out[i].Text == txt {
 				out[i].Ranges = append(out[i].Ranges, rng)
+				out[i].JoinDepth = min(out[i].JoinDepth, depths[vs])
 				return nil
 			}
 		}
-		out = append(out, selector{Text: txt, Metric: metric, Ranges: [][2]int{rng}, Match: vs.LabelMatchers})
+		out = append(out, selector{Text: txt, Metric: metric, Ranges: [][2]int{rng}, Match: vs.LabelMatchers, JoinDepth: depths[vs]})
 		return nil
 	})
 	return out, nil
@@ -326,6 +412,8 @@ type outcome struct {
 	Selectors  []selector
 	PresentNow map[string]bool
 	NoSamples  map[string]bool
+	// NoSamplesExt: no sample in the window extended by the 2h pint's range slicing may reach back further
+	NoSamplesExt map[string]bool
 	Log        []promsrv.Request
 	Skip       string
 }
@@ -348,12 +436,16 @@ func check(c Case) (out outcome, err error) {
 	}
 	out.Selectors = sels
 	anchor := time.Now()
-	db := c.DB.At(anchor)
-	srv := promsrv.New(db, promsrv.DefaultFixtures())
-	defer srv.Close()
+	c = c.aligned(anchor)
+	db := c.relDB().At(anchor)
+	srv := promsrv.Shared() // cases run one at a time within a process
+	srv.SetDB(db)
+	srv.ResetLog()
 
 	lb := c.lookback()
-	window := fmt.Sprintf("%ds", int((lb + 20*time.Minute).Seconds()))
+	window := fmt.Sprintf("%ds", int((lb + 10*time.Minute).Seconds()))
+	windowExt := fmt.Sprintf("%ds", int((lb + 2*time.Hour + 10*time.Minute).Seconds()))
+	out.NoSamplesExt = map[string]bool{}
 	probe := func(at time.Time) (map[string]bool, map[string]bool, error) {
 		present, empty := map[string]bool{}, map[string]bool{}
 		for _, s := range sels {
@@ -368,6 +460,11 @@ func check(c Case) (out outcome, err error) {
 					return nil, nil, err
 				}
 				empty[s.Metric] = n == 0
+				n, err = promsrv.InstantCount(db, fmt.Sprintf("count_over_time({__name__=%q}[%s])", s.Metric, windowExt), at)
+				if err != nil {
+					return nil, nil, err
+				}
+				out.NoSamplesExt[s.Metric] = n == 0
 			}
 		}
 		return present, empty, nil
@@ -471,6 +568,10 @@ func check(c Case) (out outcome, err error) {
 		for _, p := range out.Problems {
 			fmt.Fprintf(&b, "\n  [%s] %s cols %d-%d: %s", p.Severity, p.Summary, p.First, p.Last, p.Message)
 		}
+		fmt.Fprintf(&b, "\n--- database (lookback %s, uptime metric: %s) ---", c.LookbackRange, c.Uptime)
+		for _, sp := range c.Series {
+			fmt.Fprintf(&b, "\n  %v: %s", sp.Labels, sp.Pattern)
+		}
 		fmt.Fprintf(&b, "\n--- rule file ---\n%s--- server transcript (%d requests) ---", c.yaml(), len(out.Log))
 		for i, rq := range out.Log {
 			if i >= 40 {
@@ -485,12 +586,19 @@ func check(c Case) (out outcome, err error) {
 }
 
 // knownClass names the listed structural class a failing case falls into ("" = none).
-// "comment-first-matcher-only": a completeness failure for a selector that a disable/snooze comment covers
-// under pint's first-matcher-only comparison but not under the documented all-matchers rule.
+//
+//	"samples-just-before-lookback-window": a completeness failure where every unreported selector's metric has
+//	   samples in the 2h before the lookback window starts (pint's range slicing starts at a 2h-aligned instant
+//	   before the requested start, so pint sees them).
+//	"nested-join-selector-not-checked": a completeness failure where every unreported selector sits two or more
+//	   join levels deep (`a * (b + c)`: c) - getNonFallbackSelectors only looks at the first level of Joins.
+//	"comment-first-matcher-only": a completeness failure for a selector that a disable/snooze comment covers
+//	   under pint's first-matcher-only comparison but not under the documented all-matchers rule.
 func knownClass(c Case, out outcome, err error) string {
 	if err == nil || !strings.Contains(err.Error(), "(2) not reported") || strings.Contains(err.Error(), "(1) false missing") {
 		return ""
 	}
+	var classes []string
 	for _, s := range out.Selectors {
 		if s.Metric == "" || !out.NoSamples[s.Metric] || c.produced(s.Metric) || c.exemption(s, covered) != "" {
 			continue
@@ -501,11 +609,25 @@ func knownClass(c Case, out outcome, err error) string {
 				reported = true
 			}
 		}
-		if !reported && c.exemption(s, pintCovers) == "" {
-			return "" // some unreported selector is not explained by the known class
+		if reported {
+			continue
+		}
+		switch {
+		case s.JoinDepth >= 2:
+			classes = append(classes, "nested-join-selector-not-checked")
+		case !out.NoSamplesExt[s.Metric]:
+			classes = append(classes, "samples-just-before-lookback-window")
+		case c.exemption(s, pintCovers) != "":
+			classes = append(classes, "comment-first-matcher-only")
+		default:
+			return "" // some unreported selector is not explained by a known class
 		}
 	}
-	return "comment-first-matcher-only"
+	if len(classes) == 0 {
+		return ""
+	}
+	sort.Strings(classes)
+	return classes[0]
 }
 
 // ---------------------------------------------------------------------------
@@ -516,7 +638,7 @@ var (
 	labelsAB  = []string{"a", "b"}
 	matchVals = []string{"1", "2"}
 	regexVals = []string{"1|2", "2|3", ".+", "1.*"}
-	patterns  = []string{"now", "never", "other", "gone_old", "gone_recent", "flap_on", "flap_off", "old_only", "late"}
+	patterns  = []string{"now", "never", "other", "gone_old", "gone_recent", "flap_on", "flap_off", "old_only", "old_flap", "long_gone", "late"}
 )
 
 type selSpec struct {
@@ -624,8 +746,16 @@ func spansFor(pattern string, lbSec int64) []promsrv.RelSpan {
 		return []promsrv.RelSpan{{FromSec: start, ToSec: -(2*hour + 40*60)}}
 	case "gone_recent":
 		return []promsrv.RelSpan{{FromSec: start, ToSec: -30 * 60}}
-	case "old_only":
-		return []promsrv.RelSpan{{FromSec: -(lbSec + 4*hour), ToSec: -(lbSec + hour + 30*60)}}
+	case "old_only": // solid, ends 20 minutes before the lookback window starts
+		return []promsrv.RelSpan{{FromSec: -(lbSec + 4*hour), ToSec: -(lbSec + 20*60)}}
+	case "long_gone": // ended well before anything pint can see
+		return []promsrv.RelSpan{{FromSec: -(lbSec + 6*hour), ToSec: -(lbSec + 2*hour + 30*60)}}
+	case "old_flap": // intermittent, and only before the lookback window
+		var out []promsrv.RelSpan
+		for from := -(lbSec + 3*hour); from+10*60 <= -(lbSec + 20*60); from += 20 * 60 {
+			out = append(out, promsrv.RelSpan{FromSec: from, ToSec: from + 10*60})
+		}
+		return out
 	case "late":
 		return []promsrv.RelSpan{{FromSec: -90 * 60, ToSec: hour}}
 	case "flap_on", "flap_off":
@@ -647,14 +777,11 @@ func spansFor(pattern string, lbSec int64) []promsrv.RelSpan {
 	panic("unknown pattern " + pattern)
 }
 
-func genDB(t *rapid.T, lbSec int64, sels []selSpec) (promsrv.RelDB, map[string]string) {
-	db := promsrv.RelDB{StepSec: 60}
-	pats := map[string]string{}
+func genSeries(t *rapid.T) ([]SeriesSpec, string) {
+	var out []SeriesSpec
 	for _, m := range metrics {
 		p := rapid.SampledFrom(patterns).Draw(t, "pattern."+m)
-		pats[m] = p
-		spans := spansFor(p, lbSec)
-		if spans == nil {
+		if p == "never" {
 			continue
 		}
 		nser := rapid.IntRange(1, 2).Draw(t, "nseries."+m)
@@ -673,21 +800,11 @@ func genDB(t *rapid.T, lbSec int64, sels []selSpec) (promsrv.RelDB, map[string]s
 				}
 			}
 			l["i"] = fmt.Sprint(i)
-			db.Series = append(db.Series, promsrv.RelSeries{Labels: l, Spans: spans, Value: float64(1 + i)})
+			out = append(out, SeriesSpec{Labels: l, Pattern: p, Value: float64(1 + i)})
 		}
 	}
 	// the uptime metric: always there, with a gap, or missing
-	switch rapid.SampledFrom([]string{"full", "full", "full", "gap", "none"}).Draw(t, "uptime") {
-	case "full":
-		db.Series = append(db.Series, promsrv.RelSeries{Labels: map[string]string{"__name__": "up", "job": "j"}, Spans: []promsrv.RelSpan{{FromSec: -(lbSec + 2*hour), ToSec: hour}}, Value: 1})
-		pats["up"] = "full"
-	case "gap":
-		db.Series = append(db.Series, promsrv.RelSeries{Labels: map[string]string{"__name__": "up", "job": "j"}, Spans: []promsrv.RelSpan{{FromSec: -(lbSec + 2*hour), ToSec: -(2*hour + 20*60)}, {FromSec: -(hour + 20*60), ToSec: hour}}, Value: 1})
-		pats["up"] = "gap"
-	default:
-		pats["up"] = "none"
-	}
-	return db, pats
+	return out, rapid.SampledFrom([]string{"full", "full", "full", "gap", "none"}).Draw(t, "uptime")
 }
 
 func genComments(t *rapid.T, sels []selSpec, tags []string) []Comment {
@@ -752,7 +869,8 @@ func genCase(t *rapid.T) Case {
 	c := Case{Kind: rapid.SampledFrom([]string{"alert", "alert", "record"}).Draw(t, "kind")}
 	var sels []selSpec
 	c.Expr, sels = genExpr(t)
-	lbChoices := []string{"6h", "6h", "6h", "3h", "12h"}
+	// 3h / 6h / 4h30m / 5h30m put the window start at four different phases of pint's 2h slice grid
+	lbChoices := []string{"6h", "6h", "3h", "3h", "12h", "4h30m", "5h30m"}
 	if vstat.Tier() == "thorough" {
 		lbChoices = append(lbChoices, "24h", "")
 	}
@@ -764,7 +882,7 @@ func genCase(t *rapid.T) Case {
 	if rapid.IntRange(0, 3).Draw(t, "tags") == 0 {
 		c.Tags = []string{"t1"}
 	}
-	c.DB, c.Patterns = genDB(t, int64(c.lookback().Seconds()), sels)
+	c.Series, c.Uptime = genSeries(t)
 	// other rules of the file: recording rules that produce one of the metrics, or something else
 	nother := rapid.SampledFrom([]int{0, 0, 1, 1, 2}).Draw(t, "nothers")
 	for i := 0; i < nother; i++ {
@@ -784,34 +902,45 @@ func genCase(t *rapid.T) Case {
 	return c
 }
 
+// patternGroup folds the presence patterns into the five situations the oracles distinguish.
+func patternGroup(p string) string {
+	switch p {
+	case "now", "late", "flap_on":
+		return "present"
+	case "never", "long_gone":
+		return "empty"
+	case "old_only", "old_flap":
+		return "prewindow"
+	case "other":
+		return "otherlabels"
+	case "gone_old", "gone_recent", "flap_off":
+		return "history"
+	}
+	return "unnamed"
+}
+
 func classify(c Case) (class string, nontrivial bool, err error) {
 	sels, err := selectorsOf(c.Expr)
 	if err != nil {
 		return "", false, err
 	}
 	pats := map[string]bool{}
-	var ps, kinds []string
-	mk := map[string]bool{}
+	allPats := c.patterns()
+	var ps []string
 	for _, s := range sels {
-		p := c.Patterns[s.Metric]
+		p := allPats[s.Metric]
 		pats[p] = true
-		ps = append(ps, p)
-		for _, m := range s.Match {
-			if m.Name != labels.MetricName {
-				mk[m.Type.String()] = true
-			}
-		}
-	}
-	for k := range mk {
-		kinds = append(kinds, k)
+		ps = append(ps, patternGroup(p))
 	}
 	sort.Strings(ps)
-	sort.Strings(kinds)
 	ex := "plain"
 	if len(c.Comments) > 0 || len(c.IgnoreMetrics) > 0 {
-		ex = "exempt"
+		ex = "exemptions"
 	}
-	return fmt.Sprintf("%s|%s|%s", strings.Join(ps, "+"), strings.Join(kinds, ""), ex), len(sels) >= 2 && len(pats) >= 2, nil
+	if len(c.Others) > 0 {
+		ex += "+rules"
+	}
+	return fmt.Sprintf("%s|%s", strings.Join(ps, "+"), ex), len(sels) >= 2 && len(pats) >= 2, nil
 }
 
 // ---------------------------------------------------------------------------
@@ -820,6 +949,11 @@ func classify(c Case) (class string, nontrivial bool, err error) {
 func TestPropSeries(t *testing.T) {
 	rec := vstat.New(t, prop)
 	known := vstat.KnownClasses(prop)
+	for _, k := range strings.Split(os.Getenv("C16_TREAT_AS_KNOWN"), ",") { // development aid: look behind a finding
+		if k != "" {
+			known[k] = "dev:" + k
+		}
+	}
 	rapid.Check(t, func(rt *rapid.T) {
 		c := genCase(rt)
 		class, nontrivial, err := classify(c)
@@ -833,7 +967,7 @@ func TestPropSeries(t *testing.T) {
 			rec.Count("skipped", 1)
 			return
 		}
-		rec.Case(class, nontrivial, c.yaml()+"\x00"+c.config()+"\x00"+fmt.Sprint(c.Patterns), func() any { return c })
+		rec.Case(class, nontrivial, c.yaml()+"\x00"+c.config()+"\x00"+fmt.Sprint(c.patterns()), func() any { return c })
 		rec.Count("server_requests", int64(len(out.Log)))
 		for _, s := range out.Selectors {
 			switch {
@@ -881,7 +1015,7 @@ func TestExplore(t *testing.T) {
 		c := genCase(rt)
 		t0 := time.Now()
 		out, err := check(c)
-		t.Logf("%s in %s: expr=%q patterns=%v comments=%d requests=%d problems=%d err=%v", c.LookbackRange, time.Since(t0), c.Expr, c.Patterns, len(c.Comments), len(out.Log), len(out.Problems), err != nil)
+		t.Logf("%s in %s: expr=%q patterns=%v comments=%d requests=%d problems=%d err=%v", c.LookbackRange, time.Since(t0), c.Expr, c.patterns(), len(c.Comments), len(out.Log), len(out.Problems), err != nil)
 		for _, p := range out.Problems {
 			t.Logf("    [%s] %s %d-%d %s", p.Severity, p.Summary, p.First, p.Last, p.Message)
 		}
